@@ -27,7 +27,7 @@ from typing import Any, Dict, FrozenSet, Iterable, List, Optional, Sequence, Set
 
 from .core import AnalysisError, ClassInfo, Ctx, FuncInfo, Repo, body_without_docstring, dotted, norm
 
-State = Tuple[bool, bool, int]  # (hdr, pend, age)
+State = Tuple[bool, bool, int, bool]  # (hdr, pend, age, capok: the captured line belongs to the pending attribute)
 
 
 class Effect:
@@ -62,6 +62,16 @@ class Pipeline:
             if init is None or not any(isinstance(n, ast.Attribute) and n.attr == a for n in ast.walk(init.node)):
                 raise AnalysisError("state variable %s.%s not found" % (c.name, a))
         self.schema_reads = ("attributes", "fields", "constants", "offset")
+        # the parser-side record of the pending attribute's line, if the code keeps one: the value a handler passes as
+        # `line=` to set_error_location_if_unknown that is not the running counter
+        self.cap_attr: Optional[str] = None
+        for fn in self.parser.methods.values():
+            for c in ast.walk(fn.node):
+                if isinstance(c, ast.Call) and isinstance(c.func, ast.Attribute) and c.func.attr == "set_error_location_if_unknown":
+                    for k in c.keywords:
+                        v = norm(k.value)
+                        if k.arg == "line" and v.startswith("self.") and self.line_attr not in v and "current_line_number" not in v:
+                            self.cap_attr = v.split(".", 1)[1]
 
 
 class Interp:
@@ -109,7 +119,7 @@ class Interp:
 
     def _test(self, fn: FuncInfo, cls: ClassInfo, t: ast.AST, st: State) -> Optional[bool]:
         s = norm(t)
-        hdr, pend, age = st
+        hdr, pend, age, capok = st
         if s == "self.%s" % self.pl.hdr_attr and cls is self.pl.parser:
             return hdr
         if s == "not self.%s" % self.pl.hdr_attr and cls is self.pl.parser:
@@ -125,7 +135,7 @@ class Interp:
         return None
 
     def _stmt(self, fn: FuncInfo, cls: ClassInfo, s: ast.stmt, st: State, eff: List[Effect], prot: bool) -> List[Tuple[State, List[Effect], str]]:
-        hdr, pend, age = st
+        hdr, pend, age, capok = st
         if isinstance(s, (ast.Pass, ast.Import, ast.ImportFrom, ast.Assert, ast.Delete, ast.FunctionDef, ast.Global)):
             return [(st, eff, "ok")]
         if isinstance(s, ast.Raise):
@@ -143,7 +153,7 @@ class Interp:
             outs = self._expr(fn, cls, value, st, eff, prot) if value is not None else [(st, eff)]
             res = []
             for st2, eff2 in outs:
-                h2, p2, a2 = st2
+                h2, p2, a2, c2 = st2
                 for t in targets:
                     d = dotted(t) or ""
                     if d == "self.%s" % self.pl.hdr_attr and cls is self.pl.parser:
@@ -161,12 +171,17 @@ class Interp:
                             if fn.name == "__init__":
                                 continue
                             eff2 = eff2 + [Effect("QUEUE", {"overwrote": p2}, self._where(fn, s))]
-                            p2, a2 = True, 0
+                            p2, a2, c2 = True, 0, False
                     elif d == "self.%s" % self.pl.line_attr and cls is self.pl.parser:
                         eff2 = eff2 + [Effect("LINE", {"stmt": norm(s)}, self._where(fn, s))]
                         if p2:
                             a2 = 1
-                res.append(((h2, p2, a2), eff2, "ok"))
+                    elif self.pl.cap_attr and d == "self.%s" % self.pl.cap_attr and cls is self.pl.parser and fn.name != "__init__":
+                        # the record now holds the line of the *current* statement: that is the pending attribute's line
+                        # only if the pending attribute was queued by this very statement (age 0)
+                        c2 = bool(p2 and a2 == 0)
+                        eff2 = eff2 + [Effect("CAPTURE", {"pend": p2, "age": a2, "for_pending": c2}, self._where(fn, s))]
+                res.append(((h2, p2, a2, c2), eff2, "ok"))
             return res
         if isinstance(s, ast.If):
             eff_t = self._reads(fn, s.test, st, eff)
@@ -218,12 +233,12 @@ class Interp:
         return outs
 
     def _call(self, fn: FuncInfo, cls: ClassInfo, c: ast.Call, st: State, eff: List[Effect], prot: bool) -> List[Tuple[State, List[Effect]]]:
-        hdr, pend, age = st
+        hdr, pend, age, capok = st
         f = c.func
         fs = norm(f)
         pl = self.pl
         if fs == "self.%s" % pl.cb_attr:
-            return [((hdr, pend, age), eff + [Effect("COMMIT", {"age": age, "protected": prot, "pend": pend}, self._where(fn, c))])]
+            return [((hdr, pend, age, capok), eff + [Effect("COMMIT", {"age": age, "protected": prot, "pend": pend, "capok": capok}, self._where(fn, c))])]
         if isinstance(f, ast.Attribute) and isinstance(f.value, ast.Name) and f.value.id == "self":
             m = pl.repo.lookup_method(cls, f.attr)
             if m is not None and not m.is_property:
